@@ -366,7 +366,7 @@ pub fn run(tier: Tier) -> ! {
     }
     prepare_models();
     // predict
-    let pool = ["", "a", "あい", "a b", "a/b", "a\\b", "ab12", "a\0b", "火星猫だ", "abab", "e\u{301}ab", "｢あ｣､a｡", "｢あい｣｡ｶ－", "ラ－、ア―ア─.–ー、", " ", "   ", "abab ab12 あいa/b\\ 火星猫だ abab ab12 あいa/b 火星猫だ abab ab12 あいa 12ab ａｂ１２ abab ab12 あいa/b 火星猫だ"];
+    let pool = ["", "a", "あい", "a b", "a/b", "a\\b", "ab12", "a\0b", "火星猫だ", "abab", "e\u{301}ab", "｢あ｣､a｡", "｢あい｣｡ｶ－", "ラ－、ア―ア─.–ー、", " ", "   ", "a𠮷é😀あ𠀋𠀋b", "abab ab12 あいa/b\\ 火星猫だ abab ab12 あいa/b 火星猫だ abab ab12 あいa 12ab ａｂ１２ abab ab12 あいa/b 火星猫だ"];
     let mut streams: Vec<String> = vec![];
     let maxl = tier.pick(2, 3);
     for n in 1..=maxl {
@@ -471,7 +471,7 @@ pub fn run(tier: Tier) -> ! {
     chk.assume("layout: tokenised line, newline, then the score block, then the tag-score block (the layout of the default mode and of the README); for a rejected line only the empty line is fixed, an empty block per requested block kind is tolerated");
     chk.assume("--tag-scores without --predict-tags is meaningless: a clean refusal (non-zero exit, empty stdout) or normal output without tag blocks is accepted, a panic is not");
     chk.finish(
-        "predict: every stream of 1..2 (thorough: + the 3-line streams containing a rejected line) lines from a 17-line pool (empty, blank lines of one and three spaces, the four dash look-alikes whose character type changes under normalisation next to Other and Katakana characters, NUL, spaces, slashes, backslashes, half-width ASCII, half-width CJK punctuation whose full-width form has the same byte length, combining mark, multi-byte, one 100-character line; plus streams with 3000- (thorough: 4000- and 20000-) character lines) with and without final newline x every subset of {--no-norm, --predict-tags, --scores, --tag-scores} x 9 wsconst settings (none, D, G, D G, R, H R, T, O, K O T) x 3 models (without tags, with tags, with tags and a bias that splits almost everywhere so that filters really merge tokens) (quick: a rotating third of the stream x flag-set product); evaluate: every stream of 1..2/1..3 reference lines (tagged references also where the tool predicts no tags; with and without the final newline) (one-character sentences and lines whose first / last token is or ends in white space - an escaped space, U+3000, a tab - included) x {--no-norm} x {--predict-tags} x {char, word} x 9 wsconst settings x 3 models (quick: a quarter); stdout and exit status of the real binaries vs the library pipeline run in-process; non-trivial = blocks requested or more than one line",
+        "predict: every stream of 1..2 (thorough: + the 3-line streams containing a rejected line) lines from an 18-line pool (every adjacency of 1-, 2-, 3- and 4-byte characters in one line, empty, blank lines of one and three spaces, the four dash look-alikes whose character type changes under normalisation next to Other and Katakana characters, NUL, spaces, slashes, backslashes, half-width ASCII, half-width CJK punctuation whose full-width form has the same byte length, combining mark, multi-byte, one 100-character line; plus streams with 3000- (thorough: 4000- and 20000-) character lines) with and without final newline x every subset of {--no-norm, --predict-tags, --scores, --tag-scores} x 9 wsconst settings (none, D, G, D G, R, H R, T, O, K O T) x 3 models (without tags, with tags, with tags and a bias that splits almost everywhere so that filters really merge tokens) (quick: a rotating third of the stream x flag-set product); evaluate: every stream of 1..2/1..3 reference lines (tagged references also where the tool predicts no tags; with and without the final newline) (one-character sentences and lines whose first / last token is or ends in white space - an escaped space, U+3000, a tab - included) x {--no-norm} x {--predict-tags} x {char, word} x 9 wsconst settings x 3 models (quick: a quarter); stdout and exit status of the real binaries vs the library pipeline run in-process; non-trivial = blocks requested or more than one line",
         true,
         &replay,
     )
